@@ -44,21 +44,30 @@ INVS = ['NoFault', 'NoForeignSignal', 'RunLive', 'CascadeShape', 'Contained', 'N
 def run(check, obs, labels, limit=None, invariants=INVS, random=True, conform=False, more=()):
     if limit is None:
         limit = 12000 if check.tier == 'quick' else 250000
-    runs = []
     from concurrent.futures import ThreadPoolExecutor
+    samples = []
+
+    def judge(runs):
+        # verdict for one batch of real traces; the batch is dropped afterwards (the thorough tier replays millions)
+        for idx, clause, pos in check.validate(obs, [r[1] for r in runs]):
+            check.report(clause, runs[idx][0], runs[idx][1], pos, extra=usimrun.run_extra(runs[idx]))
+        if runs and len(samples) < 3:
+            samples.append({'program': runs[0][0], 'trace': runs[0][1][:14]})
 
     def gen(label):
         return label, check.witnesses(label, CONFIGS[label], emit='EmitOps', invariants=list(invariants) + (['NoStuck'] if check.tier == 'thorough' else []),
                                       coverage=check.tier == 'thorough', limit=limit)
-    with ThreadPoolExecutor(3) as ex:          # the TLC runs of the configurations overlap
-        generated = list(ex.map(gen, labels))
-    for label, ws in generated:
-        consts = CONFIGS[label]
-        runs += [(p, t, consts['NRoots']) for p, t in usimrun.replay(check, ws, consts, limit=limit)]
+    labels = list(labels)
+    for lo in range(0, len(labels), 3):         # the TLC runs of three configurations overlap
+        with ThreadPoolExecutor(3) as ex:
+            generated = list(ex.map(gen, labels[lo:lo + 3]))
+        for label, ws in generated:
+            consts = CONFIGS[label]
+            judge([(p, t, consts['NRoots']) for p, t in usimrun.replay(check, ws, consts, limit=limit)])
+        del generated
     if random:
-        runs += usimrun.random_runs(check, conform=conform)
-    runs += list(more)
-    for idx, clause, pos in check.validate(obs, [r[1] for r in runs]):
-        check.report(clause, runs[idx][0], runs[idx][1], pos, extra=usimrun.run_extra(runs[idx]))
-    check.samples = [{'program': r[0], 'trace': r[1][:14]} for r in runs[:: max(1, len(runs) // 3)][:3]]
-    return runs
+        judge(usimrun.random_runs(check, conform=conform))
+    if more:
+        judge(list(more))
+    check.samples = samples
+    return None
